@@ -73,7 +73,7 @@ mutual
 end
 
 mutual
-  theorem toForm_ofJV (f g : Form) : ∀ v : JV, (ofJV f v).toForm g = ofJV g v
+  theorem toForm_ofJV (f g : Form) (b : Bool) : ∀ v : JV, (ofJV f v).toForm g b = ofJV g v
     | .null => rfl
     | .bool _ => rfl
     | .int _ => rfl
@@ -81,16 +81,42 @@ mutual
     | .str _ => rfl
     | .big _ => rfl
     | .num _ => rfl
-    | .arr xs => by simp [ofJV, T.toForm, toFormList_ofJV f g xs]
-    | .obj kvs => by simp [ofJV, T.toForm, toFormKvs_ofJV f g kvs]
-  theorem toFormList_ofJV (f g : Form) : ∀ xs : List JV, T.toFormList g (ofJVList f xs) = ofJVList g xs
+    | .arr xs => by simp [ofJV, T.toForm, toFormList_ofJV f g b xs]
+    | .obj kvs => by simp [ofJV, T.toForm, toFormKvs_ofJV f g b kvs]
+  theorem toFormList_ofJV (f g : Form) (b : Bool) :
+      ∀ xs : List JV, T.toFormList g b (ofJVList f xs) = ofJVList g xs
     | [] => rfl
-    | x :: xs => by simp [ofJVList, T.toFormList, toForm_ofJV f g x, toFormList_ofJV f g xs]
-  theorem toFormKvs_ofJV (f g : Form) :
-      ∀ xs : List (Bytes × JV), T.toFormKvs g (ofJVKvs f xs) = ofJVKvs g xs
+    | x :: xs => by simp [ofJVList, T.toFormList, toForm_ofJV f g b x, toFormList_ofJV f g b xs]
+  theorem toFormKvs_ofJV (f g : Form) (b : Bool) :
+      ∀ xs : List (Bytes × JV), T.toFormKvs g b (ofJVKvs f xs) = ofJVKvs g xs
     | [] => rfl
-    | (k, x) :: xs => by simp [ofJVKvs, T.toFormKvs, toForm_ofJV f g x, toFormKvs_ofJV f g xs]
+    | (k, x) :: xs => by simp [ofJVKvs, T.toFormKvs, toForm_ofJV f g b x, toFormKvs_ofJV f g b xs]
 end
+
+mutual
+  /-- a parsed document holds no nil slice and no nil map -/
+  theorem ofJV_noNil (f : Form) : ∀ v : JV, (ofJV f v).noNil = true
+    | .null => rfl
+    | .bool _ => rfl
+    | .int _ => rfl
+    | .flt _ => rfl
+    | .str _ => rfl
+    | .big _ => rfl
+    | .num _ => rfl
+    | .arr xs => by simp [ofJV, T.noNil, ofJVList_noNil f xs]
+    | .obj kvs => by simp [ofJV, T.noNil, ofJVKvs_noNil f kvs]
+  theorem ofJVList_noNil (f : Form) : ∀ xs : List JV, T.noNilList (ofJVList f xs) = true
+    | [] => rfl
+    | x :: xs => by simp [ofJVList, T.noNilList, ofJV_noNil f x, ofJVList_noNil f xs]
+  theorem ofJVKvs_noNil (f : Form) : ∀ xs : List (Bytes × JV), T.noNilKvs (ofJVKvs f xs) = true
+    | [] => rfl
+    | (k, x) :: xs => by simp [ofJVKvs, T.noNilKvs, ofJV_noNil f x, ofJVKvs_noNil f xs]
+end
+
+/-- what `oj.Parser` delivers (numbers held as text aside) is JSON-like simple data: the round-trip
+theorems of C18 apply to it -/
+theorem ofJV_jsonLike (v : JV) (hv : noBig v = true) : (ofJV .simple v).JsonLike :=
+  ⟨ofJV_pure .simple v hv, ofJV_noNil .simple v⟩
 
 /-- half 1: the two parsers' machines deliver the same documents (or the same error) on every input,
 configuration and chunking -/
